@@ -19,6 +19,9 @@ ROUND2_MISSED_AT_FIRST = {"C01_C", "C01_D", "C02_D", "C03_C", "C03_D", "C04_D", 
 ROUND3_MISSED_AT_FIRST = {"C03_E", "C05_E", "C06_E", "C06_F", "C08_E", "C09_F", "C10_F", "C11_E", "C11_F", "C12_E", "C12_F", "C13_E", "C13_F", "C14_E", "C14_F", "C15_F",
                           "C16_E", "C16_F", "C17_F", "C18_F", "C19_E"}
 
+# round 4 (variants G, H): after the round-3 rules and the first mutation-map rules existed
+ROUND4_MISSED_AT_FIRST = {"C01_G", "C04_G", "C06_G", "C08_H", "C09_H", "C10_H", "C13_G", "C13_H", "C14_G", "C16_G", "C16_H", "C17_H", "C18_H", "C20_H"}
+
 def run(d):
     patch = os.path.join(d, "patch.diff")
     t = tempfile.mkdtemp(prefix="verif_tree."); o = tempfile.mkdtemp(prefix="verif_out.")
@@ -47,15 +50,15 @@ with ThreadPoolExecutor(8) as ex:
         sect = ""
         if m:
             rest = notes[m.start():]
-            other = {"A": "B", "B": "A", "C": "D", "D": "C", "E": "F", "F": "E"}[var]
+            other = {"A": "B", "B": "A", "C": "D", "D": "C", "E": "F", "F": "E", "G": "H", "H": "G"}[var]
             m2 = re.search(r"(?im)^#+.*variant\s+%s\b.*$|^\*\*variant\s+%s\b" % (other, other), rest[10:])
             sect = rest[: (m2.start() + 10) if m2 else 2500][:2500].strip()
         conf = [l for l in logs.splitlines() if l.startswith("%s %s demo_clean" % (prop, var))]
         fired = sorted(k for k, v in (res or {}).items() if v[0] == 1)
         files = sorted(set(re.findall(r"^\+\+\+ b/(\S+)", open(os.path.join(d, "patch.diff")).read(), re.M)))
         meta = {
-            "id": sid, "breaks_property": prop, "variant": var, "files_changed": files, "round": 1 if var in "AB" else (2 if var in "CD" else 3),
-            "reported_when_first_run_held_out": (sid not in ROUND2_MISSED_AT_FIRST) if var in "CD" else ((sid not in ROUND3_MISSED_AT_FIRST) if var in "EF" else None),
+            "id": sid, "breaks_property": prop, "variant": var, "files_changed": files, "round": {"A": 1, "B": 1, "C": 2, "D": 2, "E": 3, "F": 3, "G": 4, "H": 4}[var],
+            "reported_when_first_run_held_out": (sid not in ROUND2_MISSED_AT_FIRST) if var in "CD" else ((sid not in ROUND3_MISSED_AT_FIRST) if var in "EF" else ((sid not in ROUND4_MISSED_AT_FIRST) if var in "GH" else None)),
             "written_by": "independent sub-agent given only the property text and its own worktree (no access to /verif)",
             "mechanism_and_what_it_needs_to_manifest": sect or "see NOTES.md",
             "what_was_run": ["tools/confirm_seed.sh (fresh worktree of /repo HEAD): demo on the unmodified tree, demo with the patch applied, pinned test-suite with the patch applied",
